@@ -277,7 +277,8 @@ class TextFileProvider(FileProvider):
             # Pre-filtering ONLY when collecting data
             log.debug("Pre-filtering %s", self.relative_path)
             args.append(
-                ["grep", "-F", "\n".join(sorted(self._filters.keys(), reverse=True)), self.path]
+                # -e: the pattern list may start with a dash (a filter such as "-k")
+                ["grep", "-F", "-e", "\n".join(sorted(self._filters.keys(), reverse=True)), self.path]
             )
 
         return args
@@ -411,7 +412,8 @@ class CommandOutputProvider(ContentProvider):
 
         if self.split and self._filters:
             log.debug("Pre-filtering  %s", self.relative_path)
-            command.append(["grep", "-F", "\n".join(sorted(self._filters.keys(), reverse=True))])
+            # -e: the pattern list may start with a dash (a filter such as "-k")
+            command.append(["grep", "-F", "-e", "\n".join(sorted(self._filters.keys(), reverse=True))])
 
         return command
 
